@@ -348,7 +348,11 @@ pub fn run_one(
 }
 
 fn src_for(check: &dyn Check, seed: u64, i: u64) -> Src {
-    let mut s = Src::from_seed(run_seed(seed, i));
+    // Mix the property id in, so that checks sharing an engine explore
+    // different runs under the same VERIF_SEED.
+    let mut h = crate::src::TraceHash::default();
+    h.add_bytes(check.id().as_bytes());
+    let mut s = Src::from_seed(run_seed(seed ^ h.0, i));
     let f = check.fixed_cases();
     if f > 0 {
         s.prefix = vec![i.min(f)];
@@ -388,7 +392,8 @@ pub fn run_check(check: &dyn Check, tier: Tier, seed: u64, runs_override: Option
     let next = AtomicU64::new(0);
     let stop = AtomicBool::new(false);
     let agg = Mutex::new(Agg::default());
-    let max_viol = 3usize;
+    let max_viol: usize = std::env::var("VERIF_MAX_VIOL").ok().and_then(|s| s.parse().ok()).unwrap_or(3);
+    let survey = std::env::var("VERIF_SURVEY").is_ok();
     let nviol = AtomicU64::new(0);
     std::thread::scope(|sc| {
         for _w in 0..nthreads {
@@ -486,6 +491,10 @@ pub fn run_check(check: &dyn Check, tier: Tier, seed: u64, runs_override: Option
             continue;
         }
         seen_keys.push(v.key.clone());
+        if survey {
+            println!("survey: run={} key={} :: {}", i, v.key, v.msg.replace('\n', " | "));
+            continue;
+        }
         let (min_choices, min_v) = if *i == u64::MAX {
             (choices.clone(), v.clone())
         } else {
@@ -754,6 +763,22 @@ pub fn minimise(
     let mut progress = true;
     while progress && budget_ok(0) {
         progress = false;
+        // 0. cut the tail (exhausted draws read as 0, the simplest choice)
+        let mut keep = best.len() / 2;
+        let mut step = best.len() / 4;
+        while step >= 1 && budget_ok(0) {
+            if keep < best.len() && try_cand(best[..keep].to_vec(), &mut best, &mut best_v) {
+                progress = true;
+                keep = best.len() / 2;
+                step = (best.len() / 4).max(1);
+                if best.len() < 4 {
+                    break;
+                }
+                continue;
+            }
+            keep += step;
+            step /= 2;
+        }
         // 1. delete chunks
         let mut k = best.len() / 2;
         while k >= 1 {
